@@ -132,6 +132,11 @@ func genGluelayer() {
 					if strings.HasSuffix(f.src(x.Fun), ".MergeInto") {
 						sts = append(sts, f.src(x))
 					}
+				case *ast.ExprStmt:
+					// anything else done to the copy (a call that sorts, compacts or filters one of its lists)
+					if src := f.src(x); strings.Contains(src, "copied") {
+						sts = append(sts, src)
+					}
 				}
 				return true
 			})
